@@ -1,6 +1,7 @@
 CONSTANTS
   MaxOps = 3
   MaxDepthC = 0
+  Pattern = "any"
   Dump = FALSE
 INIT Init
 NEXT Next
